@@ -17,7 +17,7 @@ from .common import Vals, Stubs, StubFuncs, real_env, runtime_error, I, cls_name
 
 MANIFEST_ENTRY = {
     'category': 'proof',
-    'text': "every built-in `execute` inside the engine's subset and every indexing/slicing/membership/iteration/spread/destructuring node is executed symbolically with each argument forking over all value kinds (payloads symbolic): each primitive that can raise a host exception (index, key, int()/float() conversion, division, chr, shift, attribute, iteration, unpacking ...) must be unreachable or converted to CklRuntimeError, the error value must be a language value, loops must terminate; built-ins outside the subset (regex, JSON, date formats, I/O, OS) and all library functions written in Checkerlang are covered by the pool enumeration of the property's own quantifier on the real interpreter (bounded); range() for all int arguments and steps (loop contracts of C19, no exception allowed); every native and node result is a language value (a host None is a failure); every as* conversion and every rendering of every value class for payloads of any length (date texts, objects with a _str_ member of any kind); all iteration, literal, call and comprehension forms over operands of all kinds; loops whose body adds to or removes from the container they run over; comparison functions that return values of any kind; number results hold the host type of their class (decimal: float, int: int); prototype chains running into a cycle past the start; the same object in two argument positions (stand-in)",
+    'text': "every built-in `execute` inside the engine's subset and every indexing/slicing/membership/iteration/spread/destructuring node is executed symbolically with each argument forking over all value kinds (payloads symbolic): each primitive that can raise a host exception (index, key, int()/float() conversion, division, chr, shift, attribute, iteration, unpacking ...) must be unreachable or converted to CklRuntimeError, the error value must be a language value, loops must terminate; built-ins outside the subset (regex, JSON, date formats, I/O, OS) and all library functions written in Checkerlang are covered by the pool enumeration of the property's own quantifier on the real interpreter (bounded); range() for all int arguments and steps (loop contracts of C19, no exception allowed); every native and node result is a language value (a host None is a failure); every as* conversion and every rendering of every value class for payloads of any length (date texts, objects with a _str_ member of any kind); all iteration, literal, call and comprehension forms over operands of all kinds; loops whose body adds to or removes from the container they run over; comparison functions that return values of any kind; number results hold the host type of their class (decimal: float, int: int); prototype chains running into a cycle past the start; the same object in two argument positions (stand-in); 39 loop-free one-parameter library functions written in Checkerlang, called on their real AST with arguments of every kind (thorough tier)",
     'note': 'collection arguments are small shapes with symbolic payloads (symbolic-bounded); host recursion/memory limits and astronomically large repetition counts excluded; the list of built-ins proved vs. only enumerated is in the evidence',
     'technique': 'deductive verification: pyvc VCs from the real AST + z3 (kind case split, escape obligations) + bounded pool enumeration (runtime contracts)',
 }
@@ -318,6 +318,53 @@ def units(w):
     # and steps with no exception allowed
     from . import c19
     U.extend([u for u in c19.units(w) if u.name.startswith("functions.py::FuncRange.execute[")])
+    # ------------------------------------------------------------------ (A5) library functions written in Checkerlang
+    # every loop-free, non-recursive function of the bundled modules (selected by a static scan of the node trees the real
+    # parser built), called through the real interpreter code on its real AST (contracts/cklsym.py) with arguments of every kind
+    import sys as _sys
+    from . import cklsym
+    from .poolenum import MODULES
+    CK = ["null", "true", "int", "decimal", "string", "date", "list0", "list1", "list2", "set1", "map1", "object1", "func"]
+    CK2 = ["null", "int", "string", "list1"]
+    try:
+        lib = cklsym.loop_free_library_functions(MODULES)
+    except Exception as e:      # the tree under test does not load: reported by the units that need it
+        lib = []
+
+    def lib_unit(mod, fname, params, required):
+        def setup(it):
+            if "I" not in setup.__dict__:
+                pass
+            I_ = cklsym.native_session(tuple(MODULES))
+            R = cklsym.Reflector(w)
+            R.seed_singletons(_sys.modules["ckl.values"])
+            env = R.reflect(I_.environment)
+            nargs = required + (it.path.choose(len(params) - required + 1) if len(params) > required else 0)
+            nargs = min(nargs, 3)
+            binds = {}
+            for i in range(nargs):
+                kinds = CK if i == 0 else CK2      # the first argument of every kind, the others of the kinds that select branches
+                k = kinds[it.path.choose(len(kinds))]
+                binds[f"a{i}"] = make_value(V, F, it, k, f"a{i}")
+            text = f"{mod}->{fname}(" + ", ".join(f"a{i}" for i in range(nargs)) + ")"
+            call = R.reflect(_sys.modules["ckl.parser"].parse_script(text, "unit"))
+            it.global_overlay[("ckl.functions", "seed")] = SInt(z3.Int("seed0"))
+            return [call, real_env(w, it, binds, parent=env)], {}, {}
+
+        def post(it, c, o):
+            errval_ok(it, o)
+            it.check("post:value-or-language-error", o.kind in ("return", "raise"))
+        return Unit("nodes.py::NodeDerefInvoke.evaluate", setup, post, name=f"{mod.lower()}.ckl::{fname}[real module source, all kinds]",
+                    abstractions=DATE_ABS, config={"max_unroll": 12, "max_depth": 60}, replay=replay_forms, prepare=install_streams)
+    # (the engine interprets the interpreter: about half a second per path.  The sweep is kept to functions of at most one
+    #  parameter that do not reach the date formatting / parsing natives, whose string models are slow; thorough tier)
+    SLOW = {"format_date", "parse_date", "date", "matches", "split", "split2", "sprintf", "s"}
+    for mod, fname, params, required, callees in lib:
+        if any(p_.endswith("...") for p_ in params) or len(params) > 1 or SLOW & set(callees):
+            continue
+        U.append(lib_unit(mod, fname, params, required))
+        U[-1].thorough_only = True
+
     # rendering an object looks its _str_ member up along the prototype chain: the walk ends on every finite object graph
     # (chains that run into a cycle through the start or past it, chains ending in a non-object) - the units of C03
     from . import c03
